@@ -76,10 +76,22 @@ func c03Instances(h string) func(string) []*Instance {
 	return func(tier string) []*Instance {
 		var out []*Instance
 		if tier == "thorough" {
-			out = instLS(h, allLangs(), counts0to27())
+			out = instLS(h, allLangs(), counts0to27(), -1)
 		} else {
-			out = instLS(h, []int64{2, 5}, counts0to27())
-			out = append(out, instLS(h, []int64{0, 1, 3, 4, 6, 7, 8, 9}, []int64{11, 12, 15, 18, 21, 24, 25})...)
+			out = instLS(h, []int64{2, 5}, counts0to27(), -1)
+			out = append(out, instLS(h, []int64{0, 1, 3, 4, 6, 7, 8, 9}, []int64{11, 12, 15, 18, 21, 24, 25}, -1)...)
+		}
+		// an extra separator (leading, trailing, doubled in the middle) around the count boundaries
+		gl := []int64{2, 5}
+		if tier == "thorough" {
+			gl = allLangs()
+		}
+		for _, l := range gl {
+			for _, n := range []int64{11, 12, 14, 23, 24} {
+				for _, g := range []int64{0, n / 2, n} {
+					out = append(out, &Instance{Harness: h, Args: []int64{l, n, g}, Lang: int(l), MaxWitnesses: 1})
+				}
+			}
 		}
 		return out
 	}
@@ -119,7 +131,7 @@ func properties() map[string]*PropertySpec {
 			return out
 		},
 		Labels:  c03Labels,
-		Bounds:  []string{"input = any string whose NFKD form is n tokens separated by single U+0020, n = 0..27 (quick: all n for English and Japanese, n in {11,12,15,18,21,24,25} for the other eight)", "each token: any canonical word, the empty token, any other interned string, or an arbitrary non-member token"},
+		Bounds:  []string{"input = any string whose NFKD form is n non-empty tokens separated by single U+0020, n = 0..27 (quick: all n for English and Japanese, n in {11,12,15,18,21,24,25} for the other eight), optionally with one extra separator (leading, trailing or doubled in the middle) for n in {11,12,14,23,24}", "each token: any canonical word, any other interned string, or an arbitrary non-member token"},
 		Outside: []string{"n >= 28 tokens", "tokens are observed only through equality/map membership (code inspecting characters is reported inconclusive)", "non-SP whitespace inside the normal form is covered only as part of a non-member token"},
 		Stubs:   []string{stubSHA, stubBig, stubStr, stubNFKD, stubOnce},
 	}
@@ -507,30 +519,53 @@ func runCheck(spec *PropertySpec, cfg Config) int {
 }
 
 func (c *CheckRun) crossCheck() {
-	base := map[string]string{}
+	base := map[string]*Instance{}
 	for _, i := range c.Insts {
-		base[i.Key()] = verdictSummary(i)
+		base[i.Key()] = i
 	}
 	for _, s := range c.Cfg.Solvers[1:] {
 		cfg2 := c.Cfg
 		cfg2.Solvers = []string{s}
+		if cfg2.Timeout > 60000 {
+			cfg2.Timeout = 60000 // a second opinion that does not arrive in a minute is "no opinion"
+		}
 		insts := c.Spec.Instances(c.Cfg.Tier)
 		for _, i := range insts {
 			i.MaxWitnesses = 0
+			i.MaxWallS = 600
 			if c.Spec.Panics {
 				i.CheckPanics = true
 			}
 		}
 		runInstances(c.P, insts, cfg2, c.Stats)
-		dis := 0
+		dis, undecided, agree := 0, 0, 0
 		for _, i := range insts {
-			if v := verdictSummary(i); v != base[i.Key()] {
+			b := base[i.Key()]
+			if b == nil {
+				continue
+			}
+			fa, fb := findingLabels(b), findingLabels(i)
+			switch {
+			case i.Inconclusive() && fb == "":
+				undecided++ // the second solver could not decide everything the first one did: no opinion
+			case fa != fb:
 				dis++
-				c.Inconcl = append(c.Inconcl, fmt.Sprintf("solver disagreement on %s: %s says %s, %s says %s", i.Key(), c.Cfg.Solvers[0], base[i.Key()], s, v))
+				c.Inconcl = append(c.Inconcl, fmt.Sprintf("solver disagreement on %s: %s finds [%s], %s finds [%s]", i.Key(), c.Cfg.Solvers[0], fa, s, fb))
+			default:
+				agree++
 			}
 		}
-		c.Extra["agreement_"+s] = fmt.Sprintf("%d/%d instances agree", len(insts)-dis, len(insts))
+		c.Extra["second_opinion_"+s] = fmt.Sprintf("%d instances agree, %d undecided within 60 s/query (no opinion), %d disagree", agree, undecided, dis)
 	}
+}
+
+func findingLabels(i *Instance) string {
+	var labels []string
+	for _, f := range i.Findings {
+		labels = append(labels, f.Kind+":"+f.Label)
+	}
+	sort.Strings(labels)
+	return strings.Join(labels, ",")
 }
 
 func verdictSummary(i *Instance) string {
